@@ -286,33 +286,7 @@ func c05(c *Ctx) {
 			"the sort is not stable (or compares more than the key): among duplicate keys the surviving value is no longer the one supplied last ("+bad+")")
 	}
 
-	// no unstable sort anywhere in the set code: after the initial stable sort every later step (the filter partition, Filter's
-	// rotation) has to keep the kept attributes in key order, because computeDistinct takes its input as sorted — an unstable
-	// sort by "dropped or kept" permutes keys on ranges longer than a dozen elements
-	{
-		unstableAny := map[string]bool{"slices.SortFunc": true, "sort.Sort": true, "sort.Slice": true, "slices.Sort": true}
-		var bad []string
-		for _, f := range sortedFuncs(ax.Funcs) {
-			inspectNoLit(f.Body(), func(n ast.Node) bool {
-				call, ok := n.(*ast.CallExpr)
-				if !ok || len(call.Args) == 0 {
-					return true
-				}
-				cf := callee(ainfo, call)
-				if cf == nil || cf.Pkg() == nil || !unstableAny[cf.Pkg().Name()+"."+cf.Name()] {
-					return true
-				}
-				// on a slice of KeyValue
-				if sl, isSl := ainfo.TypeOf(call.Args[0]).Underlying().(*types.Slice); isSl {
-					if nn := namedOf(sl.Elem()); nn != nil && nn.Obj().Name() == "KeyValue" {
-						bad = append(bad, cf.Pkg().Name()+"."+cf.Name()+" in "+f.Name+" at "+ax.M.posStr(call.Pos()))
-					}
-				}
-				return true
-			})
-		}
-		c.Check(len(bad) == 0, "R3", "attribute|package|no unstable sort on attribute slices", at(ax.M, ax.Pkg.Syntax[0].Pos()), "only stable sorts", "an unstable sort is applied to attributes ("+joinStr(bad)+"): the order of keys that compare equal under its comparator is not preserved — kept attributes leave key order, the set's identity no longer matches its contents")
-	}
+	ruleNoUnstableAttrSort(c, ax, "R3")
 
 	// merging: exhaustion of a set is a state of the iterator, not a property of the attribute it looks at — sets may hold
 	// attributes with an empty key or an INVALID value, and those are merged like any other
@@ -608,4 +582,34 @@ func c05(c *Ctx) {
 		}
 		c.Check(good, "R5", "attribute|(*Set).Equivalent|nil/invalid ⇒ emptySet.equivalent", at(ax.M, fn.Pos()), "all empty sets share one identity", "nil and empty sets no longer share an identity")
 	}
+}
+
+// ruleNoUnstableAttrSort: no unstable sort anywhere in the set code. After the initial stable sort every later step (the filter
+// partition, Filter's rotation) has to keep the kept attributes in key order, because computeDistinct takes its input as
+// sorted — an unstable sort by "dropped or kept" permutes keys on ranges longer than a dozen elements. Shared by C05 (a set's
+// identity matches its contents) and C12 (streams that become identical under a view's filter are added together).
+func ruleNoUnstableAttrSort(c *Ctx, ax *PkgIndex, rule string) {
+	ainfo := ax.Pkg.TypesInfo
+	unstableAny := map[string]bool{"slices.SortFunc": true, "sort.Sort": true, "sort.Slice": true, "slices.Sort": true}
+	var bad []string
+	for _, f := range sortedFuncs(ax.Funcs) {
+		inspectNoLit(f.Body(), func(n ast.Node) bool {
+			call, ok := n.(*ast.CallExpr)
+			if !ok || len(call.Args) == 0 {
+				return true
+			}
+			cf := callee(ainfo, call)
+			if cf == nil || cf.Pkg() == nil || !unstableAny[cf.Pkg().Name()+"."+cf.Name()] {
+				return true
+			}
+			// on a slice of KeyValue
+			if sl, isSl := ainfo.TypeOf(call.Args[0]).Underlying().(*types.Slice); isSl {
+				if nn := namedOf(sl.Elem()); nn != nil && nn.Obj().Name() == "KeyValue" {
+					bad = append(bad, cf.Pkg().Name()+"."+cf.Name()+" in "+f.Name+" at "+ax.M.posStr(call.Pos()))
+				}
+			}
+			return true
+		})
+	}
+	c.Check(len(bad) == 0, rule, "attribute|package|no unstable sort on attribute slices", at(ax.M, ax.Pkg.Syntax[0].Pos()), "only stable sorts", "an unstable sort is applied to attributes ("+joinStr(bad)+"): the order of keys that compare equal under its comparator is not preserved — kept attributes leave key order, the set's identity no longer matches its contents")
 }
